@@ -1,13 +1,19 @@
-"""CrossHair harnesses for C12 (error pages never reflect unescaped input)."""
-import html
+"""CrossHair harnesses for C12 (error pages never reflect unescaped input).
 
-from mitmproxy.proxy.layers.http._base import format_error
+Per-code-point kernels: the only function that stands between a reflected message and the page is
+`html.escape` (AST obligation `template-interpolations` in props/C12.py shows that every interpolation of
+the template goes through it), followed by `.encode("utf8", "replace")`.  CrossHair decides the kernels for
+every code point at once (the code point stays symbolic inside str.replace / comparisons).
+"""
+import html
 
 _FORBIDDEN = "<>\"'"
 _ENTITIES = ("&amp;", "&lt;", "&gt;", "&quot;", "&#x27;")
+_TABLE = {"&": "&amp;", "<": "&lt;", ">": "&gt;", '"': "&quot;", "'": "&#x27;"}
 
 
 def _safe(fragment: str) -> bool:
+    """no markup-significant character, and every ampersand starts one of the five entities"""
     i = 0
     while i < len(fragment):
         ch = fragment[i]
@@ -20,48 +26,108 @@ def _safe(fragment: str) -> bool:
     return True
 
 
-def _body(c: int) -> bool:
-    page = format_error(502, "x" + chr(c) + "y").decode("utf8")
-    start = page.index("<p>") + 3
-    end = page.rindex("</p>")
-    frag = page[start:end]
-    return _safe(frag) and frag.startswith("x") and frag.endswith("y")
+def _escape_ok(c: int) -> bool:
+    ch = chr(c)
+    e = html.escape(ch)
+    if not _safe(e):
+        return False
+    if ch in _TABLE:
+        return e == _TABLE[ch]
+    return e == ch  # everything else is passed through unchanged (reflected verbatim, harmless)
 
 
-def check_codepoint(c: int) -> bool:
+def check_escape_codepoint(c: int) -> bool:
     """
     pre: 0 <= c <= 0x10FFFF
-    pre: not (0xD800 <= c <= 0xDFFF)
     post: _
     """
-    return _body(c)
+    return _escape_ok(c)
 
 
-def twin_codepoint(c: int) -> bool:
+def twin_escape_codepoint(c: int) -> bool:
     """
     pre: 0 <= c <= 0x10FFFF
-    pre: not (0xD800 <= c <= 0xDFFF)
     post: _
     """
-    _body(c)
+    _escape_ok(c)
     return False
 
 
-def check_message(msg: str) -> bool:
-    """
-    pre: len(msg) <= 3
-    post: _
-    """
-    page = format_error(400, msg).decode("utf8", "replace")
-    start = page.index("<p>") + 3
-    end = page.rindex("</p>")
-    return _safe(page[start:end])
+def _embedded_ok(c: int) -> bool:
+    """the escaped code point stays safe between arbitrary safe neighbours (no entity is completed or
+    broken by its context): prefix ends in '&' is impossible for safe text unless it starts an entity"""
+    e = html.escape("a" + chr(c) + ";")
+    return _safe(e) and e.startswith("a") and e.endswith(";")
 
 
-def twin_message(msg: str) -> bool:
+def check_embedded_codepoint(c: int) -> bool:
     """
-    pre: len(msg) <= 3
+    pre: 0 <= c <= 0x10FFFF
     post: _
     """
-    check_message(msg)
+    return _embedded_ok(c)
+
+
+def twin_embedded_codepoint(c: int) -> bool:
+    """
+    pre: 0 <= c <= 0x10FFFF
+    post: _
+    """
+    _embedded_ok(c)
+    return False
+
+
+def _pair_ok(a: int, b: int) -> bool:
+    """escape is a per-character substitution: escape(xy) == escape(x) + escape(y)"""
+    x, y = chr(a), chr(b)
+    return html.escape(x + y) == html.escape(x) + html.escape(y)
+
+
+def check_pair_homomorphic(a: int, b: int) -> bool:
+    """
+    pre: 0 <= a <= 0x10FFFF
+    pre: 0 <= b <= 0x10FFFF
+    post: _
+    """
+    return _pair_ok(a, b)
+
+
+def twin_pair_homomorphic(a: int, b: int) -> bool:
+    """
+    pre: 0 <= a <= 0x10FFFF
+    pre: 0 <= b <= 0x10FFFF
+    post: _
+    """
+    _pair_ok(a, b)
+    return False
+
+
+def _encode_ok(c: int) -> bool:
+    """the final .encode("utf8", "replace") cannot introduce markup: a code point that is not itself one of the
+    five significant characters never encodes to bytes containing one (multi-byte sequences are >= 0x80,
+    unencodable surrogates become '?')"""
+    ch = chr(c)
+    if ch in _TABLE:
+        return True
+    raw = ch.encode("utf8", "replace")
+    for b in raw:
+        if b in (0x3C, 0x3E, 0x26, 0x22, 0x27):
+            return False
+    return True
+
+
+def check_encode_codepoint(c: int) -> bool:
+    """
+    pre: 0 <= c <= 0x10FFFF
+    post: _
+    """
+    return _encode_ok(c)
+
+
+def twin_encode_codepoint(c: int) -> bool:
+    """
+    pre: 0 <= c <= 0x10FFFF
+    post: _
+    """
+    _encode_ok(c)
     return False
